@@ -244,6 +244,36 @@ func H_Tree() {
 	vrt.Assert(msg == "", "derivation-tree")
 }
 
+// H_Prec (C05): the grouping equals that of a precedence-climbing parser.
+func H_Prec() {
+	n := vrt.Param("n", 3)
+	toks := hTokens(n, false)
+	p := &parser{}
+	ok := p.parse(&hLexer{toks: toks})
+	clean := ok && hErrorActions(p) == 0
+	// the language is that of the (ambiguous) expression grammar
+	vrt.Assert(vrt.Iff(clean, hCNF.Member(toks)), "language")
+	if !clean {
+		return
+	}
+	vrt.Reach("accepted")
+	pin := hPin(toks)
+	got := ref.RenderLog(hG, hLog(p))
+	want := ref.PrecTree(hG, pin, false)
+	vrt.Observe("got", got)
+	vrt.Observe("want", want)
+	if got != want {
+		if got == ref.PrecTree(hG, pin, true) {
+			// agrees with the defect model "equal-level @right grouped like @left"
+			vrt.Assert(false, "grouping-right-as-left")
+		}
+		vrt.Assert(false, "grouping")
+	}
+	if n >= 5 {
+		vrt.Reach("two-operators")
+	}
+}
+
 // H_Recover (C09): termination (step budget), no silent acceptance, blame.
 func H_Recover() {
 	n := vrt.Param("n", 3)
